@@ -8,6 +8,7 @@ import (
 
 	"github.com/BondMachineHQ/BondMachine/pkg/bondmachine"
 	"github.com/BondMachineHQ/BondMachine/pkg/procbuilder"
+	"github.com/BondMachineHQ/BondMachine/pkg/simbox"
 )
 
 // open-loop environment: what the caller writes into the VM before each Step
@@ -29,6 +30,8 @@ type simReq struct {
 	// the valid/received protocol of the simulation loop of cmd/bondmachine; obj is iK or p<P>r<K>.  Suspended rules are listed
 	// by the caller but must not be applied.
 	Rules []simRule `json:"rules,omitempty"`
+	// per-processor reports (config:show_pc): the text VM.Step returns is part of what is compared (C09)
+	ShowPc bool `json:"showpc,omitempty"`
 }
 
 type simRule struct {
@@ -51,6 +54,7 @@ type simProc struct {
 }
 
 type simTick struct {
+	Rep     string    `json:"rep,omitempty"` // the text returned by VM.Step, when asked for
 	Procs   []simProc `json:"procs,omitempty"`
 	In      []uint64  `json:"in"`
 	InV     []bool    `json:"inv"`
@@ -161,7 +165,13 @@ func runSim(q *simReq) (res simRes) {
 		res.Err = "init: " + err.Error()
 		return
 	}
-	vm.Launch_processors(nil)
+	if q.ShowPc {
+		sb := new(simbox.Simbox)
+		sb.Add("config:show_pc")
+		vm.Launch_processors(sb)
+	} else {
+		vm.Launch_processors(nil)
+	}
 	full := q.Dump != "ext"
 	pos := make([]int, len(q.Streams))
 	wait := make([]bool, len(q.Streams))
@@ -237,12 +247,17 @@ func runSim(q *simReq) (res simRes) {
 			}
 		}
 		var serr error
-		quiet(func() { _, serr = vm.Step(nil) })
+		var rep string
+		quiet(func() { rep, serr = vm.Step(nil) })
 		if serr != nil {
 			res.Err = "step: " + serr.Error()
 			return
 		}
-		res.Ticks = append(res.Ticks, simSnapshot(vm, full))
+		snap := simSnapshot(vm, full)
+		if q.ShowPc {
+			snap.Rep = rep
+		}
+		res.Ticks = append(res.Ticks, snap)
 		if q.Rules != nil {
 			for o := range vm.OutputsRecv {
 				vm.OutputsRecv[o] = vm.OutputsValid[o]
